@@ -540,6 +540,14 @@ class Evaluator(object):
     def _as_comprehension(self, loop_term, lid, name, init, body, it, ctx):
         """`xs = []` followed by `for v in it: xs.append(E)` (nothing else touching xs, no break / continue) is the list
         comprehension [E for v in it]: both spellings get the same term."""
+        if init is not None and init.op == "const" and init.a[0] in (0, 0.0) and not isinstance(init.a[0], bool) and not ctx.exits and not ctx.continues:
+            # total = 0; for v in it: total += E   is   sum(E for v in it)
+            if body.op == "bin" and body.a[0] == "+":
+                lv = [z for z in (body.a[1], body.a[2]) if z.op == "loopvar" and z.a[0] == lid and z.a[1] == name]
+                el = [z for z in (body.a[1], body.a[2]) if not (z.op == "loopvar" and z.a[0] == lid and z.a[1] == name)]
+                if len(lv) == 1 and len(el) == 1 and not any(x.op == "loopvar" and x.a[0] == lid and x.a[1] == name for x in tm.walk(el[0])):
+                    return tm.call(tm.mk("builtin", "sum"), (tm.mk("comp", "gen", el[0], (it,), (), lid),))
+            return loop_term
         if init is None or not (init.op == "list" and not init.a) or ctx.exits or ctx.continues:
             return loop_term
         if body.op == "upd" and body.a[1] == "method:append" and body.a[0].op == "loopvar" and body.a[0].a[0] == lid and body.a[0].a[1] == name:
@@ -1109,7 +1117,7 @@ class Evaluator(object):
         rules were written) is evaluated in place: its statements are walked in the caller's context, so the rules see
         the same sites, terms and path conditions as if the code had never been extracted.  Returns the result term,
         or None when the callee is known / cannot be inlined faithfully (then it stays an opaque call)."""
-        if fn is None or fn.op != "func":
+        if fn is None or fn.op not in ("func", "localfunc"):
             return None
         q = fn.a[0]
         if q in KNOWN_FUNCS or not self.P.has_func(q):
@@ -1148,6 +1156,10 @@ class Evaluator(object):
         self.inline_frames.append(fr)
         self.module = g.module
         self.closure = {}
+        if fn.op == "localfunc":
+            # a nested helper sees the enclosing function's names as they were at its definition
+            self.closure = dict(self.summary.def_envs.get(g.name, {}))
+            self.closure.update(saved_closure or {})
         n_sites = len(self.summary.sites)
         try:
             out = self.run_keep_pc(g.node.body, env)
